@@ -740,6 +740,14 @@ class Interp:
             if hasattr(v, "deleted"):
                 v.deleted.discard(name)
             cur().event("write", v, name)
+            if (v.pre or getattr(v, "published", False)) and isinstance(value, (ListObj, DictObj, Obj)) and not getattr(value, "pre", False):
+                # publication: a freshly built object becomes reachable from shared state; from here on writing it is a write to shared state
+                try:
+                    value.published = f"{v.name}.{name}"
+                except AttributeError:
+                    pass
+            elif getattr(v, "published", False) and not v.pre:
+                cur().event("published_write", v, name)
             return
         if isinstance(v, pytypes.ModuleType):
             key = (v.__name__, name)
@@ -970,6 +978,8 @@ class Interp:
             if id(c) not in snap:
                 snap[id(c)] = (c, _copy.copy(c))
             return
+        if getattr(c, "published", False) and not getattr(c, "pre", False):
+            cur().event("published_container_write", c, c.published)
         if getattr(c, "pre", False) or getattr(c, "live", False):
             cur().event("container_write", c)
             snap = cur().ghost.setdefault("container0", {})
